@@ -11,6 +11,7 @@ import MW.Model.KVSys
 import MW.Spec.KV
 import MW.Lemmas.KvDelete
 import MW.Lemmas.KvIterW
+import MW.Lemmas.KvSnapshot
 namespace MW.Props.C11
 open MW MW.KV MW.Model.KV
 
@@ -193,8 +194,8 @@ example :
     batchIterator exactly as leveldb.go has it. The ledger / handler models that iterate inside
     write transactions get these semantics, no more. -/
 theorem iter_write_shape (tx : Tx) (hw : tx.readOnly = false) (b : Bucket) (st l : Bytes) :
-    let s' := b.innerKeyForIterator st
-    let l' := if l.length == 0 then bytesPrefixLimit (b.innerKeyForIterator l) else some (b.innerKeyForIterator l)
+    let s' := (b.iterBounds st l).1      -- <path>_<start>
+    let l' := (b.iterBounds st l).2      -- <path>_<limit>, or the end of the bucket; never below s'
     let inR : Bytes → Bool := fun k => ble s' k && (match l' with | none => false | some x => blt k x)
     runScript b (b.newIterator tx st l) [.all] =
       (tx.db.range s' l').map (yielded b.pathLen) ++
@@ -222,13 +223,40 @@ theorem kv_step_refines {m : Sys} {σ : Spec.KV.Sys} (h : SysRel m σ) (op : Op)
 example : SysRel {} {} := SysRel.init
 example : Sys.Inv {} := Sys.inv_init
 
-/-- isolation, spelled out: a reader never sees the pending batch – its results depend only on
-    the committed store -/
-theorem reader_isolated (s : Sys) (bt bt' : Option Batch) (op : Op) (h : slotOf op = some Slot.r) :
-    ({ s with w := bt }.step op).2 = ({ s with w := bt' }.step op).2 := by
+/-- isolation from the writer, spelled out: what an operation through the read transaction
+    returns depends neither on the pending batch nor on the live store – only on the snapshot -/
+theorem reader_isolated (s : Sys) (bt bt' : Option Batch) (db db' : Store) (op : Op) (h : slotOf op = some Slot.r) :
+    ({ s with w := bt, db := db }.step op).2 = ({ s with w := bt', db := db' }.step op).2 := by
   rw [Sys.step_data h, Sys.step_data h]
   simp only
   split <;> rfl
+
+/-- `reader_snapshot` (snapshot isolation of read transactions, the behaviour BeginReadTx has
+    since it takes a goleveldb snapshot): begin a read transaction in any state `s` without one,
+    then let ANY history `ops` run that does not end it – write transactions, commits, rollbacks,
+    other reads –: every operation `op` then issued through the read transaction observes exactly
+    what a read-only transaction on the store committed at its begin (`s.db`) observes. -/
+theorem reader_snapshot (s : Sys) (h0 : s.reader = none) (ops : List Op) (hno : Op.endR ∉ ops)
+    (op : Op) (hr : slotOf op = some Slot.r) :
+    (((s.step .beginR).1.after ops).step op).2 = (dataOp { readOnly := true, db := s.db } op).1 :=
+  Sys.step_reader_obs (Sys.after_reader_keep ops _ (Sys.beginR_snapshot h0) hno) hr
+
+/-- the same from any state whose read transaction holds snapshot `snap`; and only the reader's
+    own end releases the snapshot -/
+theorem reader_snapshot_kept (s : Sys) (snap : Store) (hs : s.reader = some snap) (ops : List Op)
+    (hno : Op.endR ∉ ops) :
+    (s.after ops).reader = some snap ∧
+    ∀ op, slotOf op = some Slot.r → ((s.after ops).step op).2 = (dataOp { readOnly := true, db := snap } op).1 :=
+  ⟨Sys.after_reader_keep ops s hs hno, fun _ hr => Sys.step_reader_obs (Sys.after_reader_keep ops s hs hno) hr⟩
+
+-- hypotheses are satisfiable: a history with a commit in it, and a read-slot operation
+example : Op.endR ∉ [Op.beginW, Op.create .w [[97]], Op.commit] ∧ slotOf (Op.get .r [[97]] [1]) = some Slot.r := by
+  decide
+-- … and on it the reader does not see the bucket committed meanwhile, a new reader does
+example :
+    let ops := [Op.beginR, Op.beginW, Op.create .w [[97]], Op.commit, Op.has .r [[97]], Op.endR, Op.beginR, Op.has .r [[97]]]
+    Model.KV.run {} ops = [.ok, .ok, .ok, .ok, .bool false, .ok, .ok, .bool true] := by
+  decide
 
 /-- recursive bucket deletion: with the budget DeleteBucket computes it never runs out of fuel,
     removes the bucket, every bucket below it and all their entries, and nothing else -/
